@@ -127,3 +127,23 @@ def agent_creates_more_than_1000_files_in_a_new_directory():
         return s.kinds()
     finally:
         s.destroy()
+
+
+def pending_agent_lines_in_a_file_renamed_with_git_mv():
+    """D97: an agent appends two lines to the tracked f.txt and reports them; `git mv f.txt r.txt`; `git commit -a` => the note lists
+    nothing and both lines are a person's: pending attributions are keyed by path and nothing moves them along with a rename."""
+    s = Script("d97", files=1)
+    try:
+        f0 = [s.line("human") for _ in range(3)]
+        s.human_write("f.txt", f0); s.commit_all("init")
+        s.ai_write("S1", "f.txt", f0 + [s.line("S1"), s.line("S1")])
+        s.g("mv", "f.txt", "r.txt")
+        s.files = ["r.txt"]
+        s.g("commit", "-q", "-a", "-m", "renamed with pending agent lines")
+        c = s.head()
+        s.check_notes("w")
+        s.check_commit_exact(c, "w", rule="C01")
+        s.check_blame_tip("w", rule="C01", files=["r.txt"])
+        return s.kinds()
+    finally:
+        s.destroy()
